@@ -832,6 +832,9 @@ def direct_call_of_switch(body, flow, sb):
             op = rv["a"]
             continue
         if rv["k"] == "use":
+            npl = op_place(rv["a"])
+            if npl and any(x.startswith(".") for x in npl[1]) and not all(x in ("*",) or x.startswith("@") or x == ".0" for x in npl[1]):
+                return None  # a field read, not the call's result itself
             op = rv["a"]
             continue
         return None
@@ -965,6 +968,9 @@ def switch_source_call(body, flow, sb):
             op = rv["a"]
             continue
         if rv["k"] == "use":
+            npl = op_place(rv["a"])
+            if npl and any(x.startswith(".") for x in npl[1]) and not all(x in ("*",) or x.startswith("@") or x == ".0" for x in npl[1]):
+                return None  # a field read, not the call's result itself
             op = rv["a"]
             continue
         return None
